@@ -433,6 +433,24 @@ pub fn run_mode(opts: &Options, prop: &str) -> Report {
                     for p in pending_switch.drain(..) {
                         peer_branch[p] = serving;
                     }
+                    // a command that moves the filter sync back (another script registered from
+                    // a low block) right in front of the reorganisation: the blocks of the kept
+                    // scripts stay indexed above the min filtered number and must still be rolled back
+                    if (prop == "C09" || (prop == "C04" && seed % 3 == 0)) && !extra_registered && cmd_rng.chance(1, 2) {
+                        let low = cmd_rng.range(0, 12);
+                        extra_registered = true;
+                        let statuses = vec![ScriptStatus { script: script_of(1).into(), script_type: ScriptType::Type, block_number: low.into() }];
+                        let rpc = node.filter_rpc();
+                        if let Err(e) = catch(|| rpc.set_scripts(statuses, Some(SetScriptsCommand::Partial)).expect("set_scripts")) {
+                            aborted = Some(e);
+                            break 'steps;
+                        }
+                        rep.count_op("set-partial-low-before-switch");
+                        lines.push(format!("set 1 | 11 {}", low));
+                        impls.push(String::new());
+                        lines.push("dump".into());
+                        impls.push(show_obs(&observe_all(&node, branches, serving)));
+                    }
                     serving = *i;
                     seen_switch = true;
                     rep.count_op("switch");
@@ -540,12 +558,21 @@ pub fn run_mode(opts: &Options, prop: &str) -> Report {
                                     lines.push("dump".into());
                                     impls.push(show_obs(&after));
                                 }
-                                if prop == "C09" && cmd_rng.chance(if seen_switch { 1 } else { 0 }, 4) {
+                                // C09: after the first switch; C04: in a third of the histories,
+                                // also before it (a low number moves the filter sync back below
+                                // blocks that stay indexed: a fork in that window must still roll
+                                // them back)
+                                let with_cmds = prop == "C09" || (prop == "C04" && seed % 3 == 0);
+                                if with_cmds && cmd_rng.chance(if seen_switch || prop == "C04" { 1 } else { 0 }, 4) {
+                                    let low = cmd_rng.range(0, 12);
                                     let (cmd, line, number) = if extra_registered {
                                         (SetScriptsCommand::Delete, "set 2 | 11 0".to_string(), 0u64)
+                                    } else if prop == "C04" || cmd_rng.chance(1, 2) {
+                                        (SetScriptsCommand::Partial, format!("set 1 | 11 {}", low), low)
                                     } else {
                                         (SetScriptsCommand::Partial, "set 1 | 11 100000".to_string(), 100_000u64)
                                     };
+                                    let is_delete = extra_registered;
                                     extra_registered = !extra_registered;
                                     let statuses = vec![ScriptStatus { script: script_of(1).into(), script_type: ScriptType::Type, block_number: number.into() }];
                                     let rpc = node.filter_rpc();
@@ -553,7 +580,8 @@ pub fn run_mode(opts: &Options, prop: &str) -> Report {
                                         aborted = Some(e);
                                         break 'steps;
                                     }
-                                    rep.count_op(if number == 0 { "set-delete-other" } else { "set-partial-other" });
+                                    let _ = number;
+                                    rep.count_op(if is_delete { "set-delete-other" } else { "set-partial-other" });
                                     lines.push(line);
                                     impls.push(String::new());
                                     lines.push("dump".into());
